@@ -3,8 +3,11 @@
 package multiplex
 
 import (
+	"runtime/debug"
+
 	"bytes"
 	"fmt"
+	"github.com/gorilla/websocket"
 	"io"
 
 	"github.com/cbeuw/Cloak/internal/common"
@@ -145,5 +148,51 @@ func init() {
 			},
 		}
 		return vx.RunSched(c, sc, sigOf("C11"))
+	}})
+}
+
+// C11 driver: a long run of messages that are not binary frames. Over the WebSocket transport a peer
+// (or anything on the path that speaks WebSocket) can send text messages; Cloak ignores them. 400000 of
+// them in a row, then a genuine frame: the frame is delivered, and the receiving goroutine has not grown
+// with the number of ignored messages (the stack limit of this process is lowered to 32 MiB so that a
+// per-message leak of a few dozen bytes of stack ends the process - reported by vcheck as a crash).
+// Free-running.
+func init() {
+	vx.Register(&vx.Scenario{Name: "ws.textflood", Prop: "C11", Run: func(c *vx.Ctx) *vx.Report {
+		rep := &vx.Report{Job: c.Job, Engine: "enum", Outcomes: map[string]int64{}, Exhaustive: true}
+		debug.SetMaxStack(32 << 20)
+		n := c.PI("n", 400000)
+		o, _ := MakeObfuscator(methodOf(c.P("method", "aes-256-gcm")), rigKey)
+		nw := vnet.New()
+		nw.NoTap = true
+		cliW, srvW, _, _ := common.VerifWSPair(nw, "flood")
+		sesh := MakeSession(7, SessionConfig{Obfuscator: o, Valve: UNLIMITED_VALVE, MsgOnWireSizeLimit: prodLimit})
+		sesh.AddConnection(srvW)
+		for i := 0; i < n; i++ {
+			if err := cliW.Conn.WriteMessage(websocket.TextMessage, nil); err != nil {
+				rep.HarnessError = "writing a text message: " + err.Error()
+				return rep
+			}
+		}
+		p := []byte("a genuine frame after the flood")
+		cliW.Write(c11Encode(&o, 1, 0, 0, p, 0))
+		conn, err := sesh.Accept()
+		msg := ""
+		if err != nil {
+			msg = fmt.Sprintf("after %d ignored text messages Accept failed: %v (session closed: %v, %q)", n, err, sesh.IsClosed(), sesh.TerminalMsg())
+		} else {
+			got := make([]byte, len(p))
+			if _, err := io.ReadFull(conn, got); err != nil || !bytes.Equal(got, p) {
+				msg = fmt.Sprintf("after %d ignored text messages the genuine frame was read as %q, %v", n, got, err)
+			}
+		}
+		rep.Executions, rep.Transitions, rep.States = 1, int64(n)+1, 1
+		if msg != "" {
+			rep.Violations = append(rep.Violations, vx.Violation{Clause: "garbage-without-effect", Sig: vx.Sig(c.Job, "garbage-without-effect"), Msg: msg})
+			rep.Exhaustive = false
+		}
+		rep.Outcomes["delivered"]++
+		sesh.Close()
+		return rep
 	}})
 }
